@@ -546,3 +546,94 @@ def bases_total(run):
                       clause='the %s of a class whose base evaluates to a %s is computed without raising [%s: %s]' % (what, label, type(exc).__name__, exc), path=path)
         run.case = None
     core.explore(lambda: None, lambda p, out: go(p))
+
+
+EVAL_REPLAY = '''import sys; sys.path.insert(0, %(repo)r)
+from supp.assistant import assist
+from supp.project import Project
+bad = []
+for src, pos in (("class A: pass\\nclass B: pass\\nx = A()\\nif 1:\\n    x = B()\\nx().attr\\n", (6, 8)), ("class A: pass\\nA()().attr\\n", (2, 10)),
+                 ("import os\\nos().attr\\n", (2, 9)), ("x = 5\\nx().real\\n", (2, 8)), ("def f(): return 1\\nf.a.b\\n", (2, 5))):
+    try:
+        assist(Project(['/nonexistent']), src, pos, 'f.py')
+    except SyntaxError:
+        pass
+    except Exception as e:
+        bad.append((src, '%%s: %%s' %% (type(e).__name__, e)))
+if bad:
+    print('REPRODUCED: %%r' %% (bad,)); sys.exit(1)
+print('not reproduced')
+'''
+
+
+def value_zoo():
+    """one instance of every value class the evaluator can produce"""
+    import supp.name as Nm
+    import supp.module as Md
+    import supp.scope as S
+    import supp.util as U
+    import sys
+    top = S.SourceScope(U.Source('class K: pass\n', 'f.py'))
+    top.parent = None
+    kscope = S.ClassScope(top, top.source.tree.body[0], top)
+
+    class Ctx(object):
+        project = None
+
+        def evaluate(self, node):
+            return None
+    kobj = Nm.ClassObject(Ctx(), kscope)
+    sm = Md.SourceModule.__new__(Md.SourceModule)
+    sm.name, sm.filename, sm.declared_at = 'm', '/x/m.py', (1, 0)
+    sm.__dict__['scope'] = top
+    attr = ast.parse('self.a = 1').body[0].targets[0]
+    mv = Nm.MultiValue(Nm.AssignedAttribute(top, attr, None, (1, 5)))
+    return [('ClassObject', kobj), ('RuntimeName(class)', Nm.RuntimeName('dict', dict, True)), ('RuntimeName(function)', Nm.RuntimeName('len', len, True)),
+            ('RuntimeName(value)', Nm.RuntimeName('x', 5)), ('InstanceValue', Nm.InstanceValue(Ctx(), kobj)),
+            ('ImportedModule', Md.ImportedModule(sys)), ('SourceModule', sm), ('CompositeValue', Nm.CompositeValue([kobj])),
+            ('CompositeValue(empty)', Nm.CompositeValue([])), ('MultiValue', mv),
+            ('FuncObject', Nm.FuncObject(S.FuncScope(top, ast.parse('def f(): pass').body[0], top))),
+            ('AttrObject', Nm.AttrObject({})), ('AdditionalNameWrapper', Nm.AdditionalNameWrapper(sm, {})), ('None', None)]
+
+
+@harness(['C08', 'C06'], 'supp.evaluator.EvalCtx._evaluate / declarations[dispatch]')
+def evaluate_total(run):
+    """every branch of the dispatch, with the sub-evaluations (modular calls of evaluate / get_attr / call / resolve) returning a value of ANY
+    class the evaluator can produce, or None: raises nothing; a call of something that is not callable, an attribute of something unknown
+    and an unknown node type all give None"""
+    import supp.evaluator as E
+    import supp.name as Nm
+    run.concretise = lambda model, ob: {'input': 'calls of values that are not callable', 'script': EVAL_REPLAY % {'repo': core.REPO}}
+
+    def go(path):
+        zoo = value_zoo()
+        nodes = [('Call', ast.parse('f(x)', mode='eval').body), ('Attribute', ast.parse('f.a', mode='eval').body),
+                 ('Constant', ast.parse('1', mode='eval').body), ('BinOp(unknown)', ast.parse('a + b', mode='eval').body)]
+        for nlabel, node in nodes:
+            for vlabel, val in zoo:
+                run.case = '%s with sub-value %s' % (nlabel, vlabel)
+                ctx = E.EvalCtx(None)
+                ctx.evaluate = lambda n, val=val: val if isinstance(n, ast.AST) else n
+                for what, fn in (('_evaluate', lambda: ctx._evaluate(node)), ('declarations', lambda: ctx.declarations(node, []))):
+                    try:
+                        r = fn()
+                        exc = None
+                    except Exception as e:
+                        r, exc = None, e
+                    prove('%s-raises-nothing' % what, exc is None, clause='%s(%s) raises nothing when the sub-expression evaluates to a %s [%s: %s]'
+                          % (what, nlabel, vlabel, type(exc).__name__, exc), path=path)
+        # values as nodes: evaluating a value object itself
+        for vlabel, val in zoo:
+            if val is None:
+                continue
+            run.case = 'value %s as node' % vlabel
+            ctx = E.EvalCtx(None)
+            try:
+                ctx._evaluate(val)
+                ctx.declarations(val, [])
+                exc = None
+            except Exception as e:
+                exc = e
+            prove('value-node-raises-nothing', exc is None, clause='[%s: %s]' % (type(exc).__name__, exc), path=path)
+        run.case = None
+    core.explore(lambda: None, lambda p, out: go(p))
